@@ -44,26 +44,21 @@ func MakeDateTime(year int, month time.Month, day, hour, minute, second int) Dat
 // ThisSecond produces a new date time instance for the current UTC time
 // to the nearest second.
 func ThisSecond() DateTime {
-	t := time.Now().UTC()
-	return DateTime{
-		civil.DateTimeOf(t),
-	}
+	return DateTimeOf(time.Now().UTC())
 }
 
 // ThisSecondIn provides a new date time using the current time from the provided
 // location as a reference.
 func ThisSecondIn(loc *time.Location) DateTime {
-	t := time.Now().In(loc)
-	return DateTime{
-		civil.DateTimeOf(t),
-	}
+	return DateTimeOf(time.Now().In(loc))
 }
 
-// DateTimeOf returns the DateTime from the provided time.
+// DateTimeOf returns the DateTime from the provided time, to the second:
+// fractions of a second are not part of the text form.
 func DateTimeOf(t time.Time) DateTime {
-	return DateTime{
-		civil.DateTimeOf(t),
-	}
+	dt := civil.DateTimeOf(t)
+	dt.Time.Nanosecond = 0
+	return DateTime{dt}
 }
 
 // Clone returns a new pointer to a copy of the date time.
@@ -79,6 +74,10 @@ func (dt DateTime) Validate() error {
 	}
 	if !dt.DateTime.IsValid() {
 		return errors.New("invalid date time")
+	}
+	if dt.DateTime.Time.Nanosecond != 0 {
+		// would be written with a fraction that the published pattern does not admit
+		return errors.New("fractions of a second are not supported")
 	}
 	if dt.DateTime.Date.Year < 0 || dt.DateTime.Date.Year > 9999 {
 		// the text form and the published schema only know four-digit years
